@@ -577,7 +577,9 @@ pub fn main_xor(args: &[String]) {
             _ => { let mut x = crate::gen::rand_addr(&mut rng); x.set_port(port); x }
         };
         let ow: u128 = match i % 3 { 0 => tw ^ 1, 1 => tw ^ (1u128 << 95), _ => rng.gen::<u128>() >> 32 };
-        let (tid, other) = (TransactionId::from(tw), TransactionId::from(ow));
+        // (ids handed over as 128-bit numbers with bits above the 96 an id has: From<u128> keeps the low 96)
+        let wide = |x: u128, k: usize| match k % 5 { 3 => x | (0xffff_ffffu128 << 96), 4 => x | (1u128 << 96), _ => x };
+        let (tid, other) = (TransactionId::from(wide(tw, i)), TransactionId::from(wide(ow, i + 1)));
         let x = XorMappedAddress::new(a, tid);
         let raw = x.to_raw();
         let wire = raw.to_bytes();
